@@ -1224,6 +1224,136 @@ def t_zip(xs: list[fp.Real], ys: list[fp.Real]):
 ''')
 
 # ---------------------------------------------------------------------------
+# structured families: small grids of programs, each with pinned witness inputs
+
+def _nested_ty(d, elt='f64', n=None):
+    t = elt
+    for _ in range(d): t = ('L', t, n)
+    return t
+
+def _nested_ann(d):
+    a = 'fp.Real'
+    for _ in range(d): a = f'list[{a}]'
+    return a
+
+def _nested_val(d, base=1.0, width=2):
+    """a width^d nested list with pairwise distinct, order-revealing leaves"""
+    if d == 0: return base
+    return [_nested_val(d - 1, base + i * (width ** (d - 1)) * 1.0, width) for i in range(width)]
+
+def _nested_lit(d, names, width=2):
+    """source text of a nested list literal over scalar expressions (cycled)"""
+    cnt = [0]
+    def go(k):
+        if k == 0:
+            cnt[0] += 1
+            return f'({names[cnt[0] % len(names)]} + {cnt[0]}.0)'
+        return '[' + ', '.join(go(k - 1) for _ in range(width)) + ']'
+    return go(d)
+
+def family_nested():
+    """lists nested 1..4 deep; a store at every depth k (a list when k < d, a scalar when k = d), written as a swap of two
+    sibling slots through a name bound to the slot BEFORE the store and read AFTER it, a second name bound after the
+    store, a deep scalar store through that name; the container is a parameter or a local literal"""
+    for d in (1, 2, 3, 4):
+        for k in range(1, d + 1):
+            for local in (False, True):
+                ix0 = '[0]' * k; ix1 = '[0]' * (k - 1) + '[1]'
+                rest = '[0]' * (d - k)                                # from the depth-k slot down to a leaf
+                rest1 = '[0]' * (d - k - 1) + ('[1]' if d > k else '')
+                name = f'nst_d{d}k{k}{"l" if local else "p"}'
+                params = ('x: fp.Real, y: fp.Real' if local else f'b: {_nested_ann(d)}, x: fp.Real')
+                body = []
+                if local: body.append(f'        b = {_nested_lit(d, ["x", "y"])}')
+                body += [f'        t = b{ix0}',                       # bound before the store
+                         f'        b{ix0} = b{ix1}',
+                         f'        b{ix1} = t',
+                         f'        u = b{ix1}',                       # bound after the store
+                         f'        r0 = b{ix0}{rest}',
+                         f'        r1 = b{ix1}{rest}',
+                         f'        r2 = t{rest}']
+                if d > k:
+                    body += [f'        u{rest1} = x * 3.0',            # a scalar store at full depth through the late name
+                             f'        w = b{ix0}',
+                             f'        b{ix1}{rest} = r0 + x',          # ... and through the container
+                             f'        r3 = t{rest1} + u{rest} + w{rest}']
+                else:
+                    body += [f'        b{ix0} = r1 + x', f'        r3 = t + u + b{ix0}']
+                src = (f'\n@fp.fpy\ndef {name}({params}):\n    with fp.FP64:\n' + '\n'.join(body) + '\n    return (r0, r1, r2, r3, b)\n')
+                if local:
+                    T(f'nested-d{d}-k{k}-local', name, ['f64', 'f64'], src, pinned=[(1.0, 10.0), (0.1, -0.0)])
+                else:
+                    T(f'nested-d{d}-k{k}-param', name, [_nested_ty(d), 'f64'], src, pinned=[(_nested_val(d), 0.5), (_nested_val(d, -0.0), 0.1)])
+
+_MODES = ('RNE', 'RTZ', 'RTP', 'RTN')
+
+def family_scopes():
+    """rounding scopes whose bodies are calls only / operations only / both, under each hardware mode, directly under the
+    entry context or nested in each other mode, with a context-less helper (specialised per calling context) and a helper
+    that carries its own context; binary64 and binary32"""
+    for fk, ty in (('d', 'f64'), ('f', 'f32')):
+        helpers = ('\n@fp.fpy\ndef sc_ratio(a: fp.Real, b: fp.Real) -> fp.Real:\n    return a / b\n'
+                   '\n@fp.fpy\ndef sc_ratio2(a: fp.Real, b: fp.Real) -> fp.Real:\n    t = a / b\n    return t * b\n'
+                   f'\n@fp.fpy\ndef sc_own(a: fp.Real, b: fp.Real) -> fp.Real:\n    with {CTX_SRC[(fk, "RTZ")]}:\n        return a / b\n'
+                   '\n@fp.fpy\ndef sc_mid(a: fp.Real, b: fp.Real) -> fp.Real:\n    return sc_ratio(a, b)\n')
+        for outer in (None,) + _MODES:
+            lines, rets = [], []
+            ind = '    ' if outer is None else '        '
+            if outer is not None: lines.append(f'    with {CTX_SRC[(fk, outer)]}:')
+            for m in _MODES:
+                c = CTX_SRC[(fk, m)]
+                q = m.lower()
+                lines += [f'{ind}with {c}:', f'{ind}    c_{q} = sc_ratio(x, y)',                      # calls only, context-less helper
+                          f'{ind}with {c}:', f'{ind}    o_{q} = x / y',                                # operations only
+                          f'{ind}with {c}:', f'{ind}    m_{q} = sc_ratio(x, y) * y',                  # mixed
+                          f'{ind}with {c}:', f'{ind}    w_{q} = sc_own(x, y)',                         # calls only, helper with its own context
+                          f'{ind}with {c}:', f'{ind}    k_{q} = sc_mid(x, y)', f'{ind}    j_{q} = sc_ratio2(y, x)']   # two calls, one through a chain
+                rets += [f'c_{q}', f'o_{q}', f'm_{q}', f'w_{q}', f'k_{q}', f'j_{q}']
+            if outer is not None:
+                lines += [f'{ind}z0 = sc_ratio(x, y)', f'{ind}z1 = x / y']; rets += ['z0', 'z1']
+            name = f'sc_{fk}_{(outer or "top").lower()}'
+            src = helpers + f'\n@fp.fpy\ndef {name}(x: fp.Real, y: fp.Real):\n' + '\n'.join(lines) + '\n    return (' + ', '.join(rets) + ')\n'
+            ent = 'fp.FP64' if fk == 'd' else 'fp.FP32'
+            T(f'scopes-{fk}-{(outer or "top").lower()}', name, [ty, ty], src, ctx=ent,
+              pinned=[(1.0, 10.0), (-1.0, 3.0), (2.0, 3.0)] + ([(1e-320, 3.0)] if fk == 'd' else [(bits32(0x00000003), 7.0)]))
+        # a function-level context (no `with` at all in the entry): only calls / only ops / both
+        for m in _MODES[1:]:
+            for kind, bodysrc in (('calls', '    a = sc_ratio(x, y)\n    b = sc_mid(y, x)\n'), ('ops', '    a = x / y\n    b = y / x\n'),
+                                  ('mixed', '    a = sc_ratio(x, y)\n    b = y / x\n')):
+                name = f'sce_{fk}_{m.lower()}_{kind}'
+                src = helpers + f'\n@fp.fpy\ndef {name}(x: fp.Real, y: fp.Real):\n' + bodysrc + '    return (a, b)\n'
+                T(f'scopes-entry-{fk}-{m.lower()}-{kind}', name, [ty, ty], src,
+                  ctx=f'fp.IEEEContext({"11, 64" if fk == "d" else "8, 32"}, fp.RM.{m})', rm=m, pinned=[(1.0, 10.0), (-1.0, 3.0)])
+
+def family_helpers():
+    """one helper with a mix of parameter kinds (real, bool, list, tuple), called from two sites of one context whose
+    arguments have different formats (binary32 / binary64 values, lists of different lengths), in both orders"""
+    KINDS = {   # parameter kind -> (annotation, use in the helper, argument at the narrow site, argument at the wide site)
+        'r': ('fp.Real', 'r = r + {p} * 0.5', 'lo', 'x'),
+        'b': ('bool', 'if {p}:\n        r = -r', 'True', 'False'),
+        'l': ('list[fp.Real]', 'r = r + {p}[0] + fp.round(len({p})) * 0.25', '[lo, lo]', '[x, x, x]'),
+        't': ('tuple[fp.Real, fp.Real]', 'ta, tc = {p}\n    r = r + ta - tc * 0.5', '(lo, lo)', '(x, y)'),
+        'tb': ('tuple[fp.Real, bool]', 'q0, q1 = {p}\n    if q1:\n        r = r + q0', '(lo, True)', '(x, False)'),
+    }
+    KINDS['c'] = ('fp.Context', 'with {p}:\n        r = r / 3.0', 'RTN64', 'RTP64')   # (the backend refuses a context parameter today: counted)
+    SIGS = [('r',), ('r', 'b'), ('b', 'r'), ('r', 'r', 'b'), ('r', 'l'), ('l', 'b'), ('r', 't'), ('t', 'b'), ('tb',), ('r', 'b', 'l', 't'), ('r', 'c'), ('l', 't', 'b')]
+    for si, sig in enumerate(SIGS):
+        ps = [f'p{i}' for i in range(len(sig))]
+        uses = '\n    '.join(KINDS[k][1].format(p=p) for k, p in zip(sig, ps))
+        helper = (f'\n@fp.fpy\ndef hk{si}(' + ', '.join(f'{p}: {KINDS[k][0]}' for k, p in zip(sig, ps)) + ') -> fp.Real:\n'
+                  '    r = 0.0\n    ' + uses + '\n    return r\n')
+        for order in ('narrow-first', 'wide-first'):
+            narrow = f'hk{si}(' + ', '.join(KINDS[k][2] for k in sig) + ')'
+            wide = f'hk{si}(' + ', '.join(KINDS[k][3] for k in sig) + ')'
+            first, second = (narrow, wide) if order == 'narrow-first' else (wide, narrow)
+            name = f'hke{si}{order[0]}'
+            src = helper + (f'\n@fp.fpy\ndef {name}(x: fp.Real, y: fp.Real):\n    with fp.FP32:\n        lo = fp.round(x)\n'
+                            f'    a = {first}\n    b = {second}\n    c = a + b\n    return (a, b, c, lo)\n')
+            T(f'helper-kinds-{"+".join(sig)}-{order}', name, ['f64', 'f64'], src, pinned=[(0.1, 0.3), (1e300, -1e300), (1.0000000001, 3.0)])
+
+family_nested(); family_scopes(); family_helpers()
+
+# ---------------------------------------------------------------------------
 # restricted random generator: straight-line code + branches + counted loops over scalars of the
 # two hardware formats under the eight hardware contexts, integer contexts, lists with aliasing and
 # in-place writes, nested lists, slices, a helper that mutates a list argument.
@@ -1234,6 +1364,7 @@ class PGen:
         self.lines: list[str] = []
         self.helpers: list[str] = []
         self.gnames: list[str] = []
+        self.cnames: list[str] = []
 
     def fresh(self, p='v'):
         self.n += 1
@@ -1288,7 +1419,7 @@ class PGen:
         R = self.R; pad = '    ' * ind
         for _ in range(n):
             kinds = ['assign'] * 4 + ['reassign'] * 2 + ['list', 'iassign', 'alias', 'slice', 'tuple']
-            if depth > 0: kinds += ['if', 'if', 'with', 'with', 'while', 'for', 'forrange', 'call', 'nested', 'ifboth', 'callg']
+            if depth > 0: kinds += ['if', 'if', 'with', 'with', 'while', 'for', 'forrange', 'call', 'nested', 'ifboth', 'callg', 'withcall', 'deep3', 'deepswap']
             k = R.choice(kinds)
             if k == 'assign':
                 v = self.fresh(); self.lines.append(f'{pad}{v} = {self.expr(env, fmt)}'); env['S'][v] = fmt
@@ -1328,6 +1459,31 @@ class PGen:
                 if R.random() < 0.6:
                     self.lines.append(f'{pad}else:')
                     e2 = self.fork(env); self.block(e2, ind + 1, fmt, rm, depth - 1, R.randint(1, 2))
+            elif k == 'withcall':
+                # a scope of another mode whose body is nothing but calls of a helper that has no context of its own
+                if fmt != 'd': continue
+                if not self.cnames:
+                    g = f'c{self.uid}'
+                    self.helpers.append(f'@fp.fpy\ndef {g}(v: fp.Real, w: fp.Real) -> fp.Real:\n    return v {R.choice(["/", "*", "+"])} w\n')
+                    self.cnames.append(g)
+                rm2 = R.choice([m for m in ('RNE', 'RTZ', 'RTP', 'RTN') if m != rm])
+                v = self.fresh()
+                self.lines.append(f'{pad}with {CTX_SRC[("d", rm2)]}:')
+                self.lines.append(f'{pad}    {v} = {self.cnames[0]}({self.operand(env, "d")}, {R.choice(["3.0", "10.0", "7.0"])})'); env['S'][v] = 'd'
+            elif k == 'deep3':
+                cands = [(l, n_) for l, (n_, f) in env['L'].items() if f == fmt and n_ > 0]
+                if not cands: continue
+                rows = [R.choice(cands)[0] for _ in range(4)]
+                m = self.fresh('q'); self.lines.append(f'{pad}{m} = [[{rows[0]}, {rows[1]}], [{rows[2]}, {rows[3]}]]'); env['D3'][m] = fmt
+            elif k == 'deepswap':
+                if not env['D3']: continue
+                m = R.choice(list(env['D3'])); i = R.randrange(2); t = self.fresh('l')
+                if R.random() < 0.5:
+                    self.lines += [f'{pad}{t} = {m}[{i}][0]', f'{pad}{m}[{i}][0] = {m}[{i}][1]', f'{pad}{m}[{i}][1] = {t}']
+                    v = self.fresh(); self.lines.append(f'{pad}{v} = {t}[0] + {m}[{i}][0][0]'); env['S'][v] = fmt
+                else:
+                    self.lines += [f'{pad}{t} = {m}[0]', f'{pad}{m}[0] = {m}[1]', f'{pad}{m}[1] = {t}']
+                    v = self.fresh(); self.lines.append(f'{pad}{v} = {t}[{i}][0] + {m}[0][{i}][0]'); env['S'][v] = fmt
             elif k == 'ifboth':
                 # a name bound before the branch and rebound in both arms
                 cands = [v for v, f in env['S'].items() if f == fmt and v not in env['ro']]
@@ -1352,7 +1508,7 @@ class PGen:
                 self.lines.append(f'{pad}with {CTX_SRC[(f2, rm2)]}:')
                 e1 = self.fork(env, keep=True); self.block(e1, ind + 1, f2, rm2, depth - 1, R.randint(1, 3))
                 # names bound in the body stay bound (Python scoping)
-                for key in ('S', 'L', 'N'): env[key].update(e1[key])
+                for key in ('S', 'L', 'N', 'D3'): env[key].update(e1[key])
             elif k == 'while':
                 i = self.fresh('k'); self.lines.append(f'{pad}{i} = 0.0' if fmt == 'd' else f'{pad}{i} = fp.round(0.0)')
                 env['S'][i] = fmt; env['ro'].add(i)
@@ -1392,12 +1548,12 @@ class PGen:
 
     @staticmethod
     def fork(env, keep=False):
-        return {'S': dict(env['S']), 'L': dict(env['L']), 'N': dict(env['N']), 'ro': set(env['ro'])}
+        return {'S': dict(env['S']), 'L': dict(env['L']), 'N': dict(env['N']), 'D3': dict(env['D3']), 'ro': set(env['ro'])}
 
     def program(self):
         R = self.R
         shape = R.choice(['dd', 'dd', 'ff', 'df', 'dl', 'dl', 'fl'])
-        args, params, env = [], [], {'S': {}, 'L': {}, 'N': {}, 'ro': set()}
+        args, params, env = [], [], {'S': {}, 'L': {}, 'N': {}, 'D3': {}, 'ro': set()}
         for i, c in enumerate(shape):
             nm = f'a{i}'
             if c == 'l':
@@ -1410,7 +1566,7 @@ class PGen:
         fmt0 = 'd'
         self.lines = [f'    with fp.FP64:']
         self.block(env, 2, fmt0, 'RNE', 2, R.randint(3, 6))
-        rets = sorted(env['S']) + sorted(env['L']) + sorted(env['N'])
+        rets = sorted(env['S']) + sorted(env['L']) + sorted(env['N']) + sorted(env['D3'])
         self.lines.append('    return (' + ', '.join(rets) + (',' if len(rets) == 1 else '') + ')')
         src = ''.join(self.helpers) + '\n@fp.fpy\n' + f'def {name}(' + ', '.join(params) + '):\n' + '\n'.join(self.lines) + '\n'
         return dict(tag='random', entry=name, args=args, src=src, ctx='fp.FP64', rm='RNE')
@@ -1943,8 +2099,10 @@ def differential(rep, R, progs, n_vec, tmp, quick, fixed=None):
         if len(d) > 1:
             p = progs[pi]
             rep.count('class:caller-state-depends-on-options')
+            rep.count(f'violation:caller-state:{p["tag"]}')
+            if rep.hist[f'violation:caller-state:{p["tag"]}'] > PER_SHAPE: continue
             rep.violation("the caller's argument storage after the call depends on the compiler options",
-                          {'kind': 'caller-state', 'source': p['src'], 'entry': p['entry'], 'args': repr(vecs_of[pi][vi]),
+                          {'kind': 'caller-state', 'tag': p['tag'], 'source': p['src'], 'entry': p['entry'], 'arg_types': repr(p['args']), 'ctx': p['ctx'], 'rm': p['rm'], 'args': repr(vecs_of[pi][vi]),
                            'states': {s: cs for s, cs in d.items()}, 'finding': FINDING_OF_KIND.get('caller-state')})
     rep.cov['evaluations'] = n_eval
     rep.cov['kernel_runs'] = len(rep.distinct)
